@@ -33,6 +33,8 @@ pub struct Plan {
     pub rules: Vec<(String, String, usize, String)>,
     /// do not wait for detached tasks once the operation has returned: the archive is looked at as it is at that moment
     pub no_quiesce: bool,
+    /// slow storage: before the operation with this arrival index, wait this many (virtual) milliseconds
+    pub delays: HashMap<usize, u64>,
 }
 
 pub fn kind_from_str(s: &str) -> ErrorKind {
@@ -294,6 +296,9 @@ impl Interceptor for Icept {
             let _ = rx.await;
         }
         let idx = sh.op_counter.fetch_add(1, SeqCst);
+        if let Some(ms) = sh.plan.delays.get(&idx) {
+            tokio::time::sleep(std::time::Duration::from_millis(*ms)).await;
+        }
         let verb = verb_str(call.verb);
         let nth = {
             let mut occ = sh.occurrences.lock().unwrap();
